@@ -803,7 +803,13 @@ func (fr *Frame) havocSliceContents(v Value, st *State) {
 		n := "E:" + heapTypeName(sl.Elem()) + lf.Path
 		srt := ArraySort(IntSort, ArraySort(IntSort, lf.Sort))
 		h := x.heapRead(st, n, srt)
-		x.heapSet(st, n, x.B.Store(h, v.L[0], x.B.Fresh("hv", ArraySort(IntSort, lf.Sort))))
+		B := x.B
+		hv := B.Fresh("hv", ArraySort(IntSort, lf.Sort))
+		// only the elements inside the slice's range may change
+		k := B.BoundVar(fmt.Sprintf("hk$%d", x.nextBound()), IntSort)
+		outside := B.Or(B.Lt(k, v.L[1]), B.Le(B.Add(v.L[1], v.L[2]), k))
+		x.assumeGlobal(B.Forall([]*Term{k}, B.Implies(outside, B.Eq(B.Select(hv, k), B.Select(B.Select(h, v.L[0]), k)))), "a callee writes only inside the slice it is given")
+		x.heapSet(st, n, B.Store(h, v.L[0], hv))
 	}
 }
 
